@@ -23,6 +23,8 @@ type scripted struct {
 	failAt   int
 	err      error
 	consumed int
+	chunk    int  // at most this many bytes per Read call (0 = no limit): a legal io.Reader may return short reads
+	late     bool // deliver the bytes before the failing index with a nil error and the error on the NEXT call (bytes.Reader style)
 }
 
 func (s *scripted) Read(p []byte) (int, error) {
@@ -39,10 +41,14 @@ func (s *scripted) Read(p []byte) (int, error) {
 		}
 		return 0, io.ErrUnexpectedEOF // script exhausted: the scenario was too short (harness problem)
 	}
-	n := copy(p, s.data[s.pos:limit])
+	want := len(p)
+	if s.chunk > 0 && want > s.chunk {
+		want = s.chunk
+	}
+	n := copy(p[:want], s.data[s.pos:limit])
 	s.pos += n
 	s.consumed = s.pos
-	if n < len(p) && s.failAt >= 0 && s.pos >= s.failAt {
+	if n < want && s.failAt >= 0 && s.pos >= s.failAt && !s.late {
 		return n, s.err
 	}
 	return n, nil
@@ -244,8 +250,19 @@ func init() {
 				}
 			}
 			allowed, _ := st["allowed"].([]interface{})
-			for rep := 0; rep < 8; rep++ {
-				src := &scripted{data: stream, failAt: failAt, err: ferr}
+			// every legal delivery style of an io.Reader must give the same outcome: whole reads, short reads of
+			// at most 7 bytes / 1 byte, and (with a fault) the error together with the last bytes or on the next call
+			type style struct {
+				chunk int
+				late  bool
+			}
+			styles := []style{{0, false}, {7, false}, {1, false}}
+			if failAt >= 0 {
+				styles = append(styles, style{0, true}, style{7, true})
+			}
+			for rep := 0; rep < 8*len(styles); rep++ {
+				sty := styles[rep%len(styles)]
+				src := &scripted{data: stream, failAt: failAt, err: ferr, chunk: sty.chunk, late: sty.late}
 				got := runRandOp(st, src)
 				if l := got.fields["leak"]; l != "" {
 					return &Mismatch{Step: i, Kind: "mismatch", Got: l, Exp: "no output with an error / honest output valid"}
